@@ -21,6 +21,7 @@ EXPLANATION = (
     "mapping key; a store chain is skipped only on `unsat`; transient storage starts empty in every "
     "transaction and sload/sstore select the map by the transient flag only. Alias resolution for symbolic keys "
     "(values) is not decided."
+    ' Round 4: every computed keccak is registered (C01 R01.4), since both layouts recognise a location through that registry.'
 )
 ASSUMPTIONS = ["Keccak-256 implementation in hsa/keccak.py (self-checked against known vectors and two in-repo constants)", "z3 Store/Select semantics"]
 
